@@ -17,6 +17,9 @@ profile("clean_hpc_small", mode="hpc", fault_free=True, kind="world", max_jobs=4
 profile("clean_hpc_quoting", mode="hpc", fault_free=True, kind="world", quoting=True, max_jobs=6)
 profile("clean_local_quoting", mode="local", fault_free=True, kind="world", quoting=True, max_jobs=6,
         user_cmds=False)
+profile("clean_hpc_probe", mode="hpc", fault_free=True, kind="world", quoting=True, max_jobs=5, real_probe=True)
+profile("clean_local_probe", mode="local", fault_free=True, kind="world", quoting=True, max_jobs=5, real_probe=True,
+        user_cmds=False)
 profile("clean_hpc_hooks", mode="hpc", fault_free=True, kind="world", p_hooks=0.5, max_jobs=8)
 profile("clean_local_hooks", mode="local", fault_free=True, kind="world", p_hooks=0.5, max_jobs=8,
         user_cmds=False)
@@ -39,7 +42,8 @@ CHECKS = {
     "C09": {"profiles": [("clean_hpc", 1.0)]},
     "C16": {"profiles": [("clean_hpc_hooks", 0.6), ("clean_local_hooks", 0.4)]},
     "C18": {"profiles": [("clean_hpc_slurm", 1.0)]},
-    "C19": {"profiles": [("clean_hpc_quoting", 0.6), ("clean_local_quoting", 0.4)]},
+    "C19": {"profiles": [("clean_hpc_quoting", 0.45), ("clean_local_quoting", 0.3), ("clean_hpc_probe", 0.15),
+                         ("clean_local_probe", 0.1)]},
     "C20": {"profiles": [("clean_hpc_reports", 0.6), ("clean_local_reports", 0.4)]},
 }
 
@@ -106,6 +110,7 @@ PROFILE_PROPS = {
     "clean_local": ["C02", "C03", "C04", "C06"],
     "clean_hpc_small": ["C07"],
     "clean_hpc_quoting": ["C19"], "clean_local_quoting": ["C19"],
+    "clean_hpc_probe": ["C19"], "clean_local_probe": ["C19"],
     "clean_hpc_hooks": ["C16"], "clean_local_hooks": ["C16"],
     "clean_hpc_reports": ["C20"], "clean_local_reports": ["C20"],
     "clean_hpc_slurm": ["C18"],
